@@ -173,6 +173,8 @@ func runC11(p *Program, r *Report) {
 	checkFullHashKeys(p, r, "R11h", "(*Stump).Update", []string{"(*Stump).Update"})
 	r.Rule("R11j", "NO-COUNT-NARROWING: under Stump.Update no count taken from a length is converted to a narrower integer type (a block with 65536 or more additions would be truncated silently)")
 	checkNoCountNarrowing(p, r, "R11j", []string{"(*Stump).Update"})
+	r.Rule("R11k", "SIBLING-SIMULATIONS-AGREE: the verifier's and the tracker's simulation of the empty roots that additions write over have the same control structure over their inputs (early exits, loop bounds, the test under which a position is recorded)")
+	checkSiblingSimulations(p, r, "R11k", "rootsToDestory", "rootInfoToDestroy")
 	r.Rule("R11i", "LEAF-COUNT-MONOTONE: under Stump.Update every store into the leaf count is an increment of its own value (PrevNumLeaves and the reported positions are those of the forest with every leaf ever added)")
 	checkLeafCountMonotone(p, r, "R11i", []string{"(*Stump).Update"})
 	r.Rule("R11f", "SUCCESS-RETURNS-DATA: every success return of the verifier-state update hands out the UpdateData whose fields were all stored")
